@@ -12,7 +12,7 @@ CONSTANTS
     MaxFrames = 3
     MaxTasks = 0
     MaxDepth = 2
-    Panics = FALSE
+    Panics = TRUE
     MaxSpans = 2
     IncomingKinds <- MC_IncBoth
     WithLazy = FALSE
